@@ -56,9 +56,16 @@ pub fn check_metadata(run: &mut Run) {
         let n = num_cells(res) as f64;
         match guard(|| a5::cell_area(res)) {
             Ok(a) => {
-                let rel = (a * n / earth - 1.0).abs();
+                // (i) the quotient must be that of ONE whole for every resolution (1e-9), (ii) the whole must be the authalic
+                // Earth area (1e-7: published values of the authalic radius differ in the 9th digit)
+                let whole = guard(|| a5::cell_area(-1)).unwrap_or(f64::NAN);
+                let rel = (a * n / whole - 1.0).abs();
                 if run.margin("metadata_cell_area_relative_error", rel, 1e-9, case) {
-                    run.violation("C04.cell_area", case(), format!("cell_area({res}) = {a:e}; times N = {:e}, authalic Earth area {earth:e} (relative {rel:.3e})", a * n));
+                    run.violation("C04.cell_area", case(), format!("cell_area({res}) = {a:e}; times N({res}) = {:e}, but cell_area(-1) = {whole:e} (relative {rel:.3e})", a * n));
+                }
+                let rel_abs = (a * n / earth - 1.0).abs();
+                if run.margin("metadata_whole_vs_authalic_earth_area", rel_abs, 1e-7, case) {
+                    run.violation("C04.cell_area", case(), format!("cell_area({res}) x N = {:e}, authalic Earth area {earth:e} (relative {rel_abs:.3e})", a * n));
                 }
             }
             Err(e) => run.violation("C04.ok", case(), format!("cell_area({res}) {e}")),
